@@ -1458,7 +1458,9 @@ func (c *Conn) executeQuery(ctx context.Context, qry *Query) *Iter {
 			}
 		}
 
-		params.skipMeta = !(c.session.cfg.DisableSkipMetadata || qry.disableSkipMetadata)
+		// protocol v1 has neither the skip-metadata flag nor result metadata in the
+		// PREPARED response: the metadata of the rows result is the only one there is
+		params.skipMeta = c.version > protoVersion1 && !(c.session.cfg.DisableSkipMetadata || qry.disableSkipMetadata)
 
 		frame = &writeExecuteFrame{
 			preparedID:    info.id,
